@@ -1,104 +1,149 @@
 (** C09 — Forwarded headers from untrusted peers never influence a decision.
     Property theorems only; model in C09/Model.v, specification vocabulary and
-    proofs in C09/Proofs.v.
+    proofs in C09/Proofs.v (parse results) and C09/Request.v (strings as supplied).
 
-    [serve parse_uri fixed es peer c h] is what heimdall's decision and proxy
-    entry points make of one request: [es] the configured trusted_proxies
-    entries with the net package's parse results, [peer] the parsed peer
-    address ([[]] = does not parse), [c] the connection and request line, [h]
-    the request headers (canonical keys, any number of values per name).  The
-    result is the request view used for matching and shown to the mechanisms
-    and, for proxy mode, the forwarded headers / method / request URI sent to
-    the upstream.  The decision itself (matched rule, pipeline outcome) is a
-    function of the view, so equal views give equal decisions.
+    [handle parse_uri parse_ip parse_cidr split_host_port fixed m cfg r raw] is what
+    heimdall's decision ([m = Decision]) or proxy ([m = Proxy]) entry point makes
+    of one request: [cfg] the two configured trusted_proxies options as strings
+    ([None] = not set), [r] RemoteAddr, TLS state and request line, [raw] the
+    header lines as sent (names in any casing, any number of lines per name).
+    The result is the request view used for matching and shown to the mechanisms
+    and, for proxy mode, method and headers of the request sent to the upstream.
+    The decision itself (matched rule, pipeline outcome) is a function of the view.
+    The four functions are the net package, net/url: arbitrary, subject to [net_ok]
+    (what the net package guarantees about its answers; re-checked on every case
+    of the correspondence run).
 
     [fixed = true] is the tree as it is now: the loader of trustedproxy.New after
     the repair of finding C09-F1 (fix: commit e501d3a, fixes/C09-F1.diff);
-    [fixed = false] is the loader as pinned, kept to document the finding
-    ([..._pinned], [..._pinned_refuted]).  The main theorems are about the
-    repaired loader and carry no guard.  [parse_uri] (url.Parse) is arbitrary. *)
-From HV Require Import Base.Prelude C09.Model C09.Proofs.
+    [fixed = false] is the loader as pinned, kept only in the two [..._refuted]
+    witnesses that document the finding.  The theorems are about the repaired
+    loader and carry no guard. *)
+From HV Require Import Base.Prelude C09.Model C09.Proofs C09.Request.
 
-(** the trust decision of the middleware is exactly membership of the peer address in the
-    configured list (single address = itself, IPv4 == IPv4-mapped IPv6; CIDR by family and mask;
-    entries and peers that do not parse cover / are covered by nothing) *)
+(** on parse results: the trust decision of the middleware is exactly membership of the peer address
+    in the configured list (single address = itself, IPv4 == IPv4-mapped IPv6; CIDR by family and
+    mask; entries and peers that do not parse cover / are covered by nothing) *)
 Theorem C09_trust_is_membership : forall es peer,
   Forall wf_entry es -> wf_ip peer ->
   (trusted_peer true es peer = true <-> listed es peer).
 Proof. exact trust_is_membership. Qed.
 Print Assumptions C09_trust_is_membership.
 
-(** 2-safety: for a peer that is not listed, two requests that differ at most in
-    the seven forwarded headers (any values, any number of repetitions) produce
-    the same view, hence the same decision, and the same upstream request *)
-Theorem C09_untrusted_noninterference : forall parse_uri es peer c h h',
-  Forall wf_entry es -> wf_ip peer ->
-  ~ listed es peer ->
-  same_except_forwarded h h' ->
-  serve parse_uri true es peer c h = serve parse_uri true es peer c h' /\
-  forall (D : Type) (decide : view -> D),
-    decide (s_view (serve parse_uri true es peer c h)) = decide (s_view (serve parse_uri true es peer c h')).
-Proof. exact noninterference_fixed. Qed.
+(** on what is configured and connected, in either mode: the middleware of a service trusts the peer
+    exactly when some string of THAT service's trusted_proxies option (not set = empty) reads as the
+    peer's address or as a range containing it; the peer's address is the host part of RemoteAddr,
+    a RemoteAddr without host:port is nobody's address *)
+Theorem C09_trust_is_membership_configured : forall parse_ip parse_cidr split_host_port,
+  net_ok parse_ip parse_cidr split_host_port ->
+  forall m cfg remote,
+    trusted_peer true (map (entry_of parse_ip parse_cidr) (configured m cfg))
+                 (parse_ip (ip_from_host_port split_host_port remote)) = true
+    <-> listed_cfg parse_ip parse_cidr split_host_port m cfg remote.
+Proof. exact trust_is_membership_cfg. Qed.
+Print Assumptions C09_trust_is_membership_configured.
+
+(** 2-safety: for a peer that is not listed, two requests that differ at most in header lines named
+    (in any casing) like one of the seven — any values, any number of repetitions — produce the same
+    view, hence the same decision, and the same upstream request *)
+Theorem C09_untrusted_noninterference : forall parse_uri parse_ip parse_cidr split_host_port,
+  net_ok parse_ip parse_cidr split_host_port ->
+  forall m cfg r raw raw',
+    ~ listed_cfg parse_ip parse_cidr split_host_port m cfg (r_remote r) ->
+    same_except_forwarded_raw raw raw' ->
+    handle parse_uri parse_ip parse_cidr split_host_port true m cfg r raw =
+    handle parse_uri parse_ip parse_cidr split_host_port true m cfg r raw'.
+Proof. exact handle_noninterference. Qed.
 Print Assumptions C09_untrusted_noninterference.
 
-(** for a peer that is not listed: method, scheme, host, path, query and the
-    client address list come only from the connection and the request line, the
-    pipeline sees none of the seven headers, and the upstream receives one freshly
-    made Forwarded header and none of the received ones *)
-Theorem C09_untrusted_not_passed_on : forall parse_uri es peer c h,
-  Forall wf_entry es -> wf_ip peer ->
-  ~ listed es peer ->
-  serve parse_uri true es peer c h =
-    {| s_view := {| v_method := c_method c; v_scheme := if c_tls c then "https" else "http";
-                    v_host := c_host c; v_rawpath := c_escpath c; v_query := c_rawquery c;
-                    v_ips := [c_peer c]; v_hdrs := not_forwarded h |};
-       s_up_fwd := spec_upstream_untrusted c;
-       s_up_method := c_method c;
-       s_up_uri := (c_escpath c ++ (if nonempty (c_rawquery c) then "?" ++ c_rawquery c else ""))%string |} /\
-  forall k, In k untrusted_header -> has k (v_hdrs (s_view (serve parse_uri true es peer c h))) = false.
-Proof. exact not_passed_on_fixed. Qed.
+(** for a peer that is not listed: method, scheme, host, path, query and the client address list come
+    only from the connection and the request line; the pipeline sees the header lines not named like
+    one of the seven; the upstream receives these and one Forwarded header made from the connection *)
+Theorem C09_untrusted_connection_only : forall parse_uri parse_ip parse_cidr split_host_port,
+  net_ok parse_ip parse_cidr split_host_port ->
+  forall m cfg r raw,
+    ~ listed_cfg parse_ip parse_cidr split_host_port m cfg (r_remote r) ->
+    handle parse_uri parse_ip parse_cidr split_host_port true m cfg r raw =
+      {| s_view := {| v_method := r_method r; v_scheme := if r_tls r then "https" else "http"; v_host := r_host r;
+                      v_rawpath := r_escpath r; v_query := r_rawquery r;
+                      v_ips := [peer_host split_host_port (r_remote r)];
+                      v_hdrs := parse_headers (not_forwarded_raw raw) |};
+         s_up_hdrs := (parse_headers (not_forwarded_raw raw) ++ [(FWD, fresh_forwarded split_host_port r)])%list;
+         s_up_method := r_method r |}.
+Proof. exact handle_untrusted. Qed.
+Print Assumptions C09_untrusted_connection_only.
+
+(** ... so a header line named like one of the seven, in any casing, is neither visible to the pipeline
+    nor passed on as received: the only such header at the upstream is the fresh Forwarded *)
+Theorem C09_untrusted_not_passed_on : forall parse_uri parse_ip parse_cidr split_host_port,
+  net_ok parse_ip parse_cidr split_host_port ->
+  forall m cfg r raw n,
+    ~ listed_cfg parse_ip parse_cidr split_host_port m cfg (r_remote r) ->
+    is_forwarded_ci n = true ->
+    has (canon_key n) (v_hdrs (s_view (handle parse_uri parse_ip parse_cidr split_host_port true m cfg r raw))) = false /\
+    forall v, In (canon_key n, v) (s_up_hdrs (handle parse_uri parse_ip parse_cidr split_host_port true m cfg r raw)) ->
+              canon_key n = FWD /\ v = fresh_forwarded split_host_port r.
+Proof. exact handle_untrusted_hidden. Qed.
 Print Assumptions C09_untrusted_not_passed_on.
 
-(** for a listed peer every present, non-empty header overrides exactly its
-    component (Proto -> scheme, Host -> host, Uri -> path and query, Method ->
-    method, Forwarded / X-Forwarded-For -> client list) and everything else
-    falls back to the actual request (both loaders) *)
-Theorem C09_trusted_overrides_exactly : forall parse_uri fixed es peer c h,
-  Forall wf_entry es -> wf_ip peer -> listed es peer ->
-  s_view (serve parse_uri fixed es peer c h) =
-  let uri := match hdr XFU h with Some v => if nonempty v then parse_uri v else None | None => None end in
-  {| v_method := override (hdr XFM h) (c_method c);
-     v_scheme := override (hdr XFP h) (if c_tls c then "https" else "http");
-     v_host := override (hdr XFH h) (c_host c);
-     v_rawpath := override (option_map fst uri) (c_escpath c);
-     v_query := override (option_map snd uri) (c_rawquery c);
-     v_ips := spec_forwarded_clients h ++ [c_peer c];
-     v_hdrs := h |}.
-Proof. exact trusted_overrides_gen. Qed.
-Print Assumptions C09_trusted_overrides_exactly.
+(** for a listed peer every present, non-empty header (first line of that name, any casing) overrides
+    its component (Proto -> scheme, Host -> host, Uri -> path and query, Method -> method,
+    Forwarded / X-Forwarded-For -> the announced clients before the peer) and everything else
+    falls back to the actual request.  [announced_of] is written with [is_split] / [is_trim]
+    only, not with the model's string functions. *)
+Theorem C09_trusted_overrides : forall parse_uri parse_ip parse_cidr split_host_port,
+  net_ok parse_ip parse_cidr split_host_port ->
+  forall m cfg r raw,
+    listed_cfg parse_ip parse_cidr split_host_port m cfg (r_remote r) ->
+    exists xs, announced_of (hdr_ci FWD raw) (hdr_ci XFF raw) xs /\
+    s_view (handle parse_uri parse_ip parse_cidr split_host_port true m cfg r raw) =
+    let uri := match hdr_ci XFU raw with Some v => if nonempty v then parse_uri v else None | None => None end in
+    {| v_method := override (hdr_ci XFM raw) (r_method r);
+       v_scheme := override (hdr_ci XFP raw) (if r_tls r then "https" else "http");
+       v_host := override (hdr_ci XFH raw) (r_host r);
+       v_rawpath := override (option_map fst uri) (r_escpath r);
+       v_query := override (option_map snd uri) (r_rawquery r);
+       v_ips := (xs ++ [peer_host split_host_port (r_remote r)])%list;
+       v_hdrs := parse_headers raw |}.
+Proof. exact handle_trusted. Qed.
+Print Assumptions C09_trusted_overrides.
 
-(** --- the pinned loader (before fix: e501d3a), documented --- *)
+(** "exactly its component": for a listed peer a component depends on no header but its own — two
+    requests that agree in the header of a component agree in that component, whatever else differs
+    (other forwarded headers, X-Forwarded-Path, look-alike names) *)
+Theorem C09_trusted_exactly_its_component : forall parse_uri parse_ip parse_cidr split_host_port,
+  net_ok parse_ip parse_cidr split_host_port ->
+  forall m cfg r raw raw',
+    listed_cfg parse_ip parse_cidr split_host_port m cfg (r_remote r) ->
+    let v := s_view (handle parse_uri parse_ip parse_cidr split_host_port true m cfg r raw) in
+    let v' := s_view (handle parse_uri parse_ip parse_cidr split_host_port true m cfg r raw') in
+    (hdr_ci XFM raw = hdr_ci XFM raw' -> v_method v = v_method v') /\
+    (hdr_ci XFP raw = hdr_ci XFP raw' -> v_scheme v = v_scheme v') /\
+    (hdr_ci XFH raw = hdr_ci XFH raw' -> v_host v = v_host v') /\
+    (hdr_ci XFU raw = hdr_ci XFU raw' -> v_rawpath v = v_rawpath v' /\ v_query v = v_query v') /\
+    (hdr_ci FWD raw = hdr_ci FWD raw' -> hdr_ci XFF raw = hdr_ci XFF raw' -> v_ips v = v_ips v').
+Proof. exact handle_trusted_frame. Qed.
+Print Assumptions C09_trusted_exactly_its_component.
 
-(** outside the inputs of C09-F1 the pinned middleware decided membership too *)
-Theorem C09_trust_is_membership_pinned : forall es peer,
-  Forall wf_entry es -> wf_ip peer -> guard_F1 es peer = false ->
-  (trusted_peer false es peer = true <-> listed es peer).
-Proof. exact trust_is_membership_pinned. Qed.
-Print Assumptions C09_trust_is_membership_pinned.
+(** whoever the peer is: at the upstream the seven names carry what heimdall composed from the request
+    the middleware left, and nothing else; X-Forwarded-Method/-Uri/-Path never arrive *)
+Theorem C09_upstream_forwarding_is_composed : forall c h k,
+  is_forwarded_name k = true ->
+  values k (upstream_headers c h) = values k (composed_forwarding c h).
+Proof. exact upstream_forwarding_is_composed. Qed.
+Print Assumptions C09_upstream_forwarding_is_composed.
 
-(** ... and was non-interfering there *)
-Theorem C09_untrusted_noninterference_pinned : forall parse_uri fixed es peer c h h',
-  Forall wf_entry es -> wf_ip peer ->
-  ~ listed es peer -> (fixed = false -> guard_F1 es peer = false) ->
-  same_except_forwarded h h' ->
-  serve parse_uri fixed es peer c h = serve parse_uri fixed es peer c h' /\
-  forall (D : Type) (decide : view -> D),
-    decide (s_view (serve parse_uri fixed es peer c h)) = decide (s_view (serve parse_uri fixed es peer c h')).
-Proof. exact noninterference_gen. Qed.
-Print Assumptions C09_untrusted_noninterference_pinned.
+(** the model totalises nothing: for what net.ParseCIDR returns, IPNet.Contains never takes its nil
+    branch and never indexes out of range *)
+Theorem C09_contains_never_panics : forall a m p,
+  wf_entry (ECidr a m) ->
+  (exists nn mk, network_number_and_mask a m = Some (nn, mk)) /\ contains_panics a m p = false.
+Proof. exact contains_never_panics. Qed.
+Print Assumptions C09_contains_never_panics.
 
-(** C09-F1 (repaired): with the pinned loader an entry that does not parse made every peer that
-    does not parse trusted ... *)
+(** --- finding C09-F1 (repaired by fix: e501d3a), documented by witnesses about the pinned loader --- *)
+
+(** with the pinned loader an entry that does not parse made every peer that does not parse trusted ... *)
 Theorem C09_F1_pinned_refuted :
   exists es peer, Forall wf_entry es /\ wf_ip peer /\ guard_F1 es peer = true /\
                   trusted_peer false es peer = true /\ ~ listed es peer.
@@ -115,31 +160,28 @@ Theorem C09_F1_pinned_noninterference_refuted :
 Proof. exact F1_pinned_noninterference_refuted. Qed.
 Print Assumptions C09_F1_pinned_noninterference_refuted.
 
-(** the hypotheses are satisfiable by non-trivial inputs *)
-Example C09_nonvacuous_untrusted :
-  let es := [ECidr [10;0;0;0]%N [255;0;0;0]%N; EIp []] in
-  let peer := [0;0;0;0;0;0;0;0;0;0;255;255;8;8;4;4]%N in
-  Forall wf_entry es /\ wf_ip peer /\ ~ listed es peer /\
-  same_except_forwarded [(XFM, "POST"); ("X-Custom", "1"); (XFU, "/pst/a")]%string [("X-Custom", "1"); (FWD, "for=1.1.1.1")]%string.
-Proof.
-  split; [repeat constructor; simpl; auto|]. split; [right; right; reflexivity|].
-  split; [intro L; apply listedb_listed in L; vm_compute in L; discriminate|].
-  reflexivity.
-Qed.
+(** --- the hypotheses are satisfiable by non-trivial inputs (not counted as property theorems) --- *)
 
-(** in particular by the inputs of the former finding *)
+Example C09_nonvacuous_net_ok : net_ok ex_parse_ip ex_parse_cidr ex_split.
+Proof. exact ex_net_ok. Qed.
+
+Example C09_nonvacuous_untrusted :
+  ~ listed_cfg ex_parse_ip ex_parse_cidr ex_split Proxy ex_cfg "8.8.4.4:53" /\
+  ~ listed_cfg ex_parse_ip ex_parse_cidr ex_split Decision ex_cfg "10.1.2.3:80" /\
+  ~ listed_cfg ex_parse_ip ex_parse_cidr ex_split Proxy ex_cfg "garbage" /\
+  same_except_forwarded_raw [("x-forwarded-METHOD", "POST"); ("X-Custom", "1"); ("X-FORWARDED-URI", "/pst/a")]%string
+                            [("X-Custom", "1"); ("forwarded", "for=1.1.1.1")]%string.
+Proof. exact ex_untrusted. Qed.
+
+Example C09_nonvacuous_trusted :
+  listed_cfg ex_parse_ip ex_parse_cidr ex_split Proxy ex_cfg "10.1.2.3:80" /\
+  listed_cfg ex_parse_ip ex_parse_cidr ex_split Proxy ex_cfg "[::ffff:10.1.2.3]:80".
+Proof. exact ex_trusted. Qed.
+
+(** the former finding input satisfies the hypotheses of the unguarded parse-level theorems *)
 Example C09_nonvacuous_former_F1_input :
   let es := [EIp []; ECidr [10;0;0;0]%N [255;0;0;0]%N] in
   let peer : ip := [] in
   Forall wf_entry es /\ wf_ip peer /\ ~ listed es peer /\ guard_F1 es peer = true /\
   trusted_peer true es peer = false /\ trusted_peer false es peer = true.
 Proof. exact nonvacuous_former_F1_input. Qed.
-
-Example C09_nonvacuous_trusted :
-  let es := [ECidr [10;0;0;0]%N [255;0;0;0]%N] in
-  let peer := [0;0;0;0;0;0;0;0;0;0;255;255;10;1;2;3]%N in
-  Forall wf_entry es /\ wf_ip peer /\ listed es peer.
-Proof.
-  split; [repeat constructor; simpl; auto|]. split; [right; right; reflexivity|].
-  apply listedb_listed. vm_compute. reflexivity.
-Qed.
